@@ -139,11 +139,13 @@ def few_messages():
 
 
 def block_spellings(quick):
-    """spelling x configuration class x message — whole for SPConfig; the other classes: the single-confirmation
-    messages (quick) / whole (thorough)"""
+    """spelling x configuration class x message — whole for SPConfig; the other classes: the ten core spellings x the
+    single-confirmation messages (quick) / whole (thorough)"""
     out = []
     for cls in CLASSES:
         for sp in SPELLINGS:
+            if quick and cls != "SPConfig" and sp not in CORE:
+                continue
             ms = messages(not quick) if (cls == "SPConfig" or not quick) else few_messages()
             for k, m in enumerate(ms):
                 out.append(G.cell(kind="O", spell=sp, cls=cls, recip="entity", msg=k, **m))
